@@ -41,8 +41,8 @@ var props = map[string]propDef{
 	"C30": {"exploration", 1400, 30000,
 		"Each case: a history of 1..6 generated programs on one Runner (assignments, options, traps, functions, aliases, cd/pushd, exit, failing and fatal commands, exec redirections, quiet background jobs left running), each ending normally, by exit, by a fatal handler error or by cancellation at a seeded step, then Reset and P; compared with P on a Runner made by New with the same options (stdout, stderr, returned error, Exited, Vars, Funcs, Dir, Params). One quarter of the cases instead compare Run(file) with one Run call per top-level statement stopping at Exited (programs without EXIT trap). Non-trivial: the history run finished; distinct = distinct (history+P, tape, faults) hashes.",
 		[]string{"external state (simulated files, consumed stdin) is kept out of the comparison by construction: histories never read the shared stdin nor write files P reads"}},
-	"C31": {"exploration", 1368, 30000,
-		"Each case: one of 38 non-terminating or forever-blocking programs (infinite loops in every syntactic position, blocked read/read -a/mapfile/select/cat on a silent stdin, wait and wait gN on sleeping/looping/blocked jobs, process substitutions never opened / opened but never read / read slowly, pipelines blocked on either side with tiny pipe capacity, here-document writers blocked on a full pipe, commands that ignore cancellation for up to 2 s) with a seeded prefix, crossed with the cancellation step: steps 0..23 are enumerated for every program, later steps drawn; the cancellation fires at that controller step or at the first idle instant before it. Oracle after the cancel event: Run returns within 2000 scheduling steps and 3 s of simulated time, never ends in a state where nothing is runnable and no timer is pending, and returns a non-nil error. Non-trivial: the cancellation fired; distinct = distinct (program, tape, cancel step) hashes.",
+	"C31": {"exploration", 1500, 30000,
+		"Each case: one of 62 non-terminating or forever-blocking programs (infinite loops in every syntactic position, blocked read/read -a/mapfile/select/cat on a silent stdin, wait and wait gN on sleeping/looping/blocked jobs, process substitutions never opened / opened but never read / read slowly, pipelines blocked on either side with tiny pipe capacity, here-document writers blocked on a full pipe, commands that ignore cancellation for up to 2 s) with a seeded prefix, crossed with the cancellation step: steps 0..23 are enumerated for every program, later steps drawn; the cancellation fires at that controller step or at the first idle instant before it. Oracle after the cancel event: Run returns within 2000 scheduling steps and 3 s of simulated time, never ends in a state where nothing is runnable and no timer is pending, and returns a non-nil error. Non-trivial: the cancellation fired; distinct = distinct (program, tape, cancel step) hashes.",
 		[]string{"simulated commands honour the context at once except 'stubborn d' (d <= 2 s), which stands for a child that ignores SIGINT until the kill timeout", "the real DefaultExecHandler signalling path is outside the simulation"}},
 	"C32": {"exploration", 2000, 50000,
 		"Each case is one of: (race) a generated parent state and statement lists S and T touching the same names, S in a concurrent construct (background job, background subshell, >( ), both sides of | and |&, command substitution inside a job, <( ) inside a job, two jobs, a function run in a job) and T in the parent, under a seeded schedule with I/O faults; (subshell-api) Runner.Subshell() copy and parent run generated programs concurrently; (wait) 1..5 jobs with distinct exit codes and simulated durations, then wait gJ; echo $? in seeded order. Oracle: the Go race detector (scheduler hand-offs hidden from it, so serialisation adds no happens-before edges) reports nothing during the run, no panic, and the wait statuses printed are the jobs' codes, bare wait gives 0, an unknown job id gives 1. Non-trivial: at least one context switch between live goroutines; distinct = distinct (program, tape, faults) hashes.",
